@@ -50,6 +50,13 @@ def oracle(lines, fam, plan, N0, ops, tail):
         if not stabs or stabs[0].result not in ("panic Cycle", "panic HeightLimit"):
             return f"closing a cycle: the stabilise returned `{stabs[0].result if stabs else None}` instead of a panic naming the cycle"
         return None
+    if fam == "scopecycle":
+        # the second stabilise closes the cycle; the panic has to name the cycle, not the height limit
+        if len(stabs) < 2 or stabs[0].result != "ok":
+            return f"building the graph: the first stabilise returned `{stabs[0].result if stabs else None}`"
+        if stabs[1].result != "panic Cycle":
+            return f"closing a cycle through a bind scope: the stabilise returned `{stabs[1].result}` instead of a panic naming the cycle"
+        return None
     if fam == "nested":
         if not stabs or stabs[0].result != "panic NestedStabilise":
             return f"nested stabilise returned `{stabs[0].result if stabs else None}`"
